@@ -9,8 +9,8 @@ open ZCV ZCV.Rx
 
 /-! ## tables and bounds -/
 
-theorem boolTrue_val : Gen.boolTrue = ["yes".toList, "true".toList, "on".toList] := rfl
-theorem boolFalse_val : Gen.boolFalse = ["no".toList, "false".toList, "off".toList] := rfl
+theorem boolTrue_val : Gen.boolTrue = ["on".toList, "true".toList, "yes".toList] := rfl
+theorem boolFalse_val : Gen.boolFalse = ["false".toList, "no".toList, "off".toList] := rfl
 
 theorem asBoolean_eq_spec (s : Str) : asBoolean s = DTSpec.boolean s := by
   unfold asBoolean DTSpec.boolean
@@ -40,8 +40,8 @@ theorem map_mul_one (r : R Int) : r.map (· * 1) = r := by
 theorem map_id' (r : R Int) : r.map (fun x => x) = r := by
   cases r <;> simp [Except.map]
 
-theorem byteSizeTbl_val : Gen.byteSizeTbl = [("kb".toList, 1024), ("mb".toList, 1024*1024), ("gb".toList, 1024*1024*1024)] := rfl
-theorem timeIntervalTbl_val : Gen.timeIntervalTbl = [("s".toList, 1), ("m".toList, 60), ("h".toList, 3600), ("d".toList, 86400)] := rfl
+theorem byteSizeTbl_val : Gen.byteSizeTbl = [("gb".toList, 1024*1024*1024), ("kb".toList, 1024), ("mb".toList, 1024*1024)] := rfl
+theorem timeIntervalTbl_val : Gen.timeIntervalTbl = [("d".toList, 86400), ("h".toList, 3600), ("m".toList, 60), ("s".toList, 1)] := rfl
 
 theorem byteSize_eq_spec (s : Str) : byteSize s = DTSpec.byteSize s := by
   unfold byteSize DTSpec.byteSize suffixMult DTSpec.suffixed
